@@ -304,7 +304,7 @@ def check_get_key_flags(rep, prog):
             rep.check(ok, 'C16.5', 'PGPKey._get_key_flags', 'primary (%s): %s' % (label, r[:100]),
                       'a primary key has Certify plus the flags of its identity\'s (most recent) self-signature', where=gk.where, found=r, scenario=label)
         want = '%s.get_uid(%s)' % (me, up) if label == 'chosen identity' else None
-        ok = bool(granted) and all((g == want) if want else g.startswith(me + '.') or g.startswith('next(iter(%s.' % me) for g in granted)
+        ok = bool(granted) and all((g == want) if want else re.search(r'(?<![\w.])%s\.(userids|_uids)\b' % re.escape(me), g) is not None for g in granted)
         rep.check(ok, 'C16.5', 'PGPKey._get_key_flags', 'flags granted through %s' % sorted(set(granted)),
                   'the capabilities of a primary key are those its (chosen) identity\'s self-signature grants', where=gk.where,
                   expected=want or 'an identity of this key', found=sorted(set(granted)), scenario=label)
@@ -327,26 +327,47 @@ def check_self_signatures(rep, prog):
     if sf is None:
         raise AnalysisError('PGPKey.self_signatures vanished')
     me = sf.params[0]
+    sigs = '%s._signatures' % me
     for primary, owner, kind in ((True, '%s.fingerprint.keyid' % me, 'SignatureType.DirectlyOnKey'),
                                  (False, '%s._parent.fingerprint.keyid' % me, 'SignatureType.Subkey_Binding')):
+        scen = 'primary=%s' % primary
         sc = Scenario(bind={'%s.is_primary' % me: Const(primary)}, inline=noinline)
-        for s in Interp(prog, sc).run(sf):
-            ys = [render(y) for y in s.yields]
-            m = re.match(r'^\*?EACH\((\$[\d.]+) in (.+?)(?: if (.+))?;(\$[\d.]+)\)$', ys[0]) if len(ys) == 1 else None
-            if not m or m.group(1) != m.group(4):
-                raise AnalysisError('PGPKey.self_signatures: yields %s, not the filtered elements of one collection' % ys)
-            v, coll, cond = m.group(1), m.group(2), m.group(3)
-            o = order_of(_parse(coll)) if _parse(coll) is not None else None
-            rep.check(o == ('asc', '%s._signatures' % me), 'C16.5', 'PGPKey.self_signatures', 'iterates %s' % coll,
-                      'the candidates are taken from the time-sorted signature collection in order', where=sf.where, scenario='primary=%s' % primary)
-            if cond is None:
-                # a loop with an inner `if`: the interpreter drops decisions inside summarised loops - read them from the loop body
-                raise AnalysisError('PGPKey.self_signatures: filter not visible as a condition of the iteration')
+        outs = Interp(prog, sc).run(sf)
+        ys = [render(y) for s in outs for y in s.yields]
+        m = re.match(r'^\*?EACH\((\$[\d.]+) in (.+?)(?: if (.+))?;(?:(\$[\d.]+)|ALT\((\$[\d.]+) \| \)|ALT\( \| (\$[\d.]+)\))\)$', ys[0]) \
+            if len(outs) == 1 and len(ys) == 1 else None
+        if not m or m.group(1) != (m.group(4) or m.group(5) or m.group(6)):
+            raise AnalysisError('PGPKey.self_signatures: yields %s, not the filtered elements of one collection' % ys)
+        v, coll, cond = m.group(1), m.group(2), m.group(3)
+        if m.group(4) is None and cond is not None:
+            raise AnalysisError('PGPKey.self_signatures: filtered twice (%s)' % ys)
+        o = order_of(_parse(coll)) if _parse(coll) is not None else None
+        rep.check(o == ('asc', sigs), 'C16.5', 'PGPKey.self_signatures', 'iterates %s' % coll,
+                  'the candidates are taken from the time-sorted signature collection in order', where=sf.where, scenario=scen)
+        want = [('eq', frozenset(('%s.type' % v, kind))), ('eq', frozenset(('%s.signer' % v, owner))), ('expr', '%s.is_expired' % v)]
+        if cond is not None:
             cj = conjuncts(cond)
-            want = [('eq', frozenset(('%s.type' % v, kind))), ('eq', frozenset(('%s.signer' % v, owner))), ('not', '%s.is_expired' % v)]
-            rep.check(all(w in cj for w in want), 'C16.5', 'PGPKey.self_signatures', 'filters',
-                      'self-signatures are those of the right type issued by the owning primary and not expired', where=sf.where,
-                      expected=[str(w) for w in want], found=[str(c) for c in cj], scenario='primary=%s' % primary)
+            ok = all((w if w[0] == 'eq' else ('not', w[1])) in cj for w in want)
+            found = [str(c) for c in cj]
+        else:
+            # a plain loop with an inner test: decisions inside a summarised loop are not kept, so run the body for one
+            # element and read the truth table: the element is yielded iff all three relations hold
+            el = Sym('SIG', nonnull=True)
+            want = [(w[0], frozenset(x.replace(v, 'SIG') for x in w[1])) if w[0] == 'eq' else (w[0], w[1].replace(v, 'SIG')) for w in want]
+            outs = Interp(prog, Scenario(bind={'%s.is_primary' % me: Const(primary)}, unroll={coll: [el]}, inline=noinline)).run(sf)
+            ok, found = True, None
+            for assign in keyaction.assignments(outs):
+                hit = [s for s in outs if keyaction.consistent(s, assign)]
+                expect = assign.get(want[0]) is True and assign.get(want[1]) is True and assign.get(want[2]) is False
+                for s in hit:
+                    got = [render(y) for y in s.yields]
+                    if got not in ([], ['SIG']):
+                        raise AnalysisError('PGPKey.self_signatures: yields %s for one element' % got)
+                    if (got == ['SIG']) != expect:
+                        ok, found = False, 'under [%s] the signature is %s' % (keyaction._show(assign), 'yielded' if got else 'dropped')
+        rep.check(ok, 'C16.5', 'PGPKey.self_signatures', 'filters',
+                  'self-signatures are those of the right type issued by the owning primary and not expired', where=sf.where,
+                  expected=[str(w) for w in want], found=found, scenario=scen)
 
 
 # ------------------------------------------------------------------------------------------------ key-form predicates
